@@ -9,7 +9,7 @@
 // closes, accepts, and — in dedicated cases — 129+ peers without Accept.
 //
 //	op line      lin <addr> <raw hex> <aux>           (aux as in component sessin)
-//	             accept | close <creation index>
+//	             accept | close <creation index> | lclose   (Listener.Close in the middle of a case)
 //	             dial <addr spec> | dgram <addr spec>  (source filter of a dialled session)
 //	observation  <decision> t=<addr/conv/index,…> q=<accept queue length>
 //	             decision = drop csum | drop silent | route a i | closed a i | create a conv i closed=j
@@ -19,7 +19,10 @@
 // integrity check changes nothing at all; what an accepted session delivers is a prefix of the
 // keyed stream its own peer wrote in that conversation; Accept returns exactly the created
 // sessions, once each, in creation order; every genuine conversation start that found room in
-// the backlog is accepted.
+// the backlog is accepted.  After `lclose` (Listener.Close) datagrams keep arriving: sessions
+// already accepted still work, a reset frame still closes the old session, NOTHING is created
+// (the l.die test of packetInput), and every session that was still in the accept backlog has been
+// closed and unmapped by Close (closeUnaccepted).
 package listener
 
 import (
@@ -103,22 +106,23 @@ type srv struct {
 }
 
 type runner struct {
-	o      *hx.Out
-	g      *hx.Rng
-	tier   string
-	cfg    config
-	l      *kcp.Listener
-	lconn  *memnet.Conn
-	enc    kcp.BlockCrypt
-	dec    kcp.BlockCrypt
-	peers  []*peer
-	srvs   map[int]*srv // by creation index
-	order  []int        // creation order of `create` decisions (indices)
-	accIdx int          // how many of `order` have been returned by Accept
-	hist   []string
-	nextIP int
-	dead   bool              // a packetInput call never returned: stop driving this listener
-	forged map[uint32][]byte // conv -> payload of a forged sn=0 PUSH (a conversation the forger started)
+	o       *hx.Out
+	g       *hx.Rng
+	tier    string
+	cfg     config
+	l       *kcp.Listener
+	lconn   *memnet.Conn
+	enc     kcp.BlockCrypt
+	dec     kcp.BlockCrypt
+	peers   []*peer
+	srvs    map[int]*srv // by creation index
+	order   []int        // creation order of `create` decisions (indices)
+	accIdx  int          // how many of `order` have been returned by Accept
+	hist    []string
+	nextIP  int
+	dead    bool              // a packetInput call never returned: stop driving this listener
+	lclosed bool              // Listener.Close has been called in this case
+	forged  map[uint32][]byte // conv -> payload of a forged sn=0 PUSH (a conversation the forger started)
 }
 
 func (x *runner) viol(kind, detail string) {
@@ -234,6 +238,18 @@ func (x *runner) plainOf(raw []byte) ([]byte, bool) {
 // property text and the frame layout, independently of the Lean model): what the listener has
 // to do with a datagram from address a given the table before it.
 func (x *runner) expected(a string, raw []byte, tb map[string]tableEntry, room bool) string {
+	want := x.expectedOpen(a, raw, tb, room)
+	if x.lclosed && strings.HasPrefix(want, "create ") {
+		// a closed listener creates nothing; the old session of a reset frame is closed all the same
+		if e, ok := tb[a]; ok {
+			return fmt.Sprintf("closed %s %d", a, e.idx)
+		}
+		return "drop silent"
+	}
+	return want
+}
+
+func (x *runner) expectedOpen(a string, raw []byte, tb map[string]tableEntry, room bool) string {
 	p, ok := x.plainOf(raw)
 	if !ok {
 		if x.cfg.kind == "block" && len(raw) >= 20 || x.cfg.kind != "block" && len(raw) >= x.cfg.gcm.NonceSize()+x.cfg.gcm.Overhead() {
@@ -417,6 +433,12 @@ func (x *runner) lin(class string, addr net.Addr, raw []byte) string {
 	}
 	x.op(op, dec+" "+tas)
 	x.o.Count("decision:" + strings.Fields(dec)[0])
+	if x.lclosed {
+		x.o.Count("closed-listener:" + strings.Fields(dec)[0])
+		if strings.HasPrefix(dec, "create") || len(ta) > len(tb) || !strings.HasSuffix(tas, "q=0") {
+			x.viol("listener-closed-created", fmt.Sprintf("%s: datagram (%s) from %s after Listener.Close: decision %q, table %q -> %q", x.cfg.name, class, a, dec, tbs, tas))
+		}
+	}
 	if want := x.expected(a, raw, tb, !strings.HasSuffix(tbs, fmt.Sprintf("q=%d", 128))); pmsg == "" && !matchDecision(want, dec) {
 		x.viol("listener-decision", fmt.Sprintf("%s: datagram (%s) from %s with table %q: the listener did %q, the property asks for %q", x.cfg.name, class, a, tbs, dec, want))
 	}
@@ -597,7 +619,7 @@ func (x *runner) deliverNext(p *peer) {
 	}
 	// independent expectation: the first datagram of a new conversation (sn = 0 resp. an OOB
 	// frame, readable conv) is a conversation start; with room in the backlog it MUST create
-	if first && room && !mine {
+	if first && room && !mine && !x.lclosed {
 		x.viol("listener-accept-missed", fmt.Sprintf("%s: first datagram of conversation %d from %s found room in the backlog but the decision was %q", x.cfg.name, c.conv, p.addr, dec))
 	}
 	if first && !room && !strings.HasPrefix(dec, "drop silent") && !strings.HasPrefix(dec, "closed ") {
@@ -834,6 +856,7 @@ func (x *runner) startCase(name string, c config) {
 	x.order = nil
 	x.accIdx = 0
 	x.hist = nil
+	x.lclosed = false
 	x.o.Case(name + "-" + c.name + "-" + fmt.Sprint(x.g.U32()))
 	x.op("lnew "+c.kind, "ok")
 }
@@ -852,7 +875,7 @@ func (x *runner) endCase() {
 		x.accept()
 	}
 	x.accept() // one on the empty queue
-	if x.accIdx != len(x.order) {
+	if x.accIdx != len(x.order) && !x.lclosed {
 		x.viol("listener-accept-count", fmt.Sprintf("%d sessions created, %d returned by Accept", len(x.order), x.accIdx))
 	}
 	x.readAll()
@@ -870,7 +893,7 @@ func (x *runner) endCase() {
 			}
 			// (more than once is possible and is what the code does: after the session was closed, a stale
 			// datagram of the same conversation finds no session mapped and is a conversation start again)
-			if n < 1 {
+			if n < 1 && !x.lclosed {
 				x.viol("listener-accept-count", fmt.Sprintf("%s: conversation %d of peer %s started with room in the backlog but was never returned by Accept", x.cfg.name, c.conv, p.addr))
 			}
 			if n > 1 {
@@ -890,6 +913,121 @@ func (x *runner) endCase() {
 	x.l.Close()
 	x.lconn.Close()
 	kcp.VerifListenerForget(x.l)
+}
+
+// lclose: Listener.Close in the middle of a case.  Every session still in the accept backlog must be
+// closed and unmapped, the queue empty; accepted sessions are untouched and stay mapped.
+func (x *runner) lclose() {
+	if x.dead || x.lclosed {
+		return
+	}
+	tb, tbs := x.table()
+	before := x.snapAll()
+	queued := map[int]bool{}
+	for i := x.accIdx; i < len(x.order); i++ {
+		queued[x.order[i]] = true
+	}
+	if msg := hx.Try(func() { x.l.Close() }); msg != "" {
+		x.viol("listener-panic", "Listener.Close panicked: "+msg)
+	}
+	x.lclosed = true
+	ta, tas := x.table()
+	after := x.snapAll()
+	x.op("lclose", "ok "+tas)
+	x.o.Count("lclose")
+	x.o.CountN("lclose-queued", len(queued))
+	if !strings.HasSuffix(tas, "q=0") {
+		x.viol("listener-close-backlog", fmt.Sprintf("%s: accept queue not empty after Listener.Close: %q -> %q", x.cfg.name, tbs, tas))
+	}
+	for idx := range queued {
+		sv := x.srvs[idx]
+		if sv == nil {
+			continue
+		}
+		if !closed(sv.s) {
+			x.viol("listener-close-backlog", fmt.Sprintf("%s: session #%d (%s conv %d) was in the accept backlog and is still open after Listener.Close", x.cfg.name, idx, sv.addr, sv.conv))
+		}
+		sv.closedBy = "listener-close"
+	}
+	for k, e := range ta {
+		if queued[e.idx] {
+			x.viol("listener-close-backlog", fmt.Sprintf("%s: session #%d is still mapped at %s after Listener.Close", x.cfg.name, e.idx, k))
+		}
+	}
+	// sessions that were not in the backlog: identical, mapped as before
+	for idx, b := range before {
+		if !queued[idx] && after[idx] != b {
+			x.viol("listener-close-frame", fmt.Sprintf("%s: Listener.Close changed session #%d (not in the backlog):\n%s", x.cfg.name, idx, diffLines(b, after[idx])))
+		}
+	}
+	for k, e := range tb {
+		if e2, ok := ta[k]; !queued[e.idx] && (!ok || e2.idx != e.idx) {
+			x.viol("listener-close-frame", fmt.Sprintf("%s: Listener.Close unmapped the session at %s (not in the backlog)", x.cfg.name, k))
+		}
+	}
+}
+
+// traffic, Listener.Close, more traffic: old sessions still work or are reset-closed, nothing new is created
+func (x *runner) caseClose(c config, k, steps int) {
+	x.startCase(fmt.Sprintf("lclose%d", k), c)
+	for i := 0; i < k; i++ {
+		p := &peer{id: i, addr: x.newAddr()}
+		x.peers = append(x.peers, p)
+		x.connect(p)
+	}
+	closeAt := steps/3 + x.g.Intn(steps/3+1)
+	for i := 0; i < steps; i++ {
+		if i == closeAt {
+			// accept a random part of the backlog first: those sessions survive the Close
+			n := x.g.Intn(len(x.order) - x.accIdx + 1)
+			if x.g.Bool() { // … or nearly all of it
+				n = len(x.order) - x.accIdx - x.g.Intn(3)
+			}
+			for ; n > 0; n-- {
+				x.accept()
+			}
+			x.lclose()
+		}
+		switch r := x.g.Intn(100); {
+		case r < 40:
+			x.deliverNext(x.anyPeer())
+		case r < 44:
+			p := x.anyPeer()
+			x.write(p, true) // OOB
+			x.deliverNext(p)
+		case r < 68:
+			x.foreign()
+		case r < 74:
+			x.accept()
+		case r < 80:
+			x.readAll()
+		case r < 86: // reconnect: same address, new conversation (after the close: a reset that creates nothing)
+			p := x.anyPeer()
+			x.connect(p)
+			x.o.Count("reconnect")
+			x.deliverNext(p)
+		case r < 92: // a new peer
+			p := &peer{id: len(x.peers), addr: x.newAddr()}
+			x.peers = append(x.peers, p)
+			x.connect(p)
+			x.deliverNext(p)
+		default: // the application closes a server-side session
+			idxs := make([]int, 0, len(x.srvs))
+			for i := range x.srvs {
+				idxs = append(idxs, i)
+			}
+			if len(idxs) > 0 {
+				sort.Ints(idxs)
+				idx := idxs[x.g.Intn(len(idxs))]
+				x.srvs[idx].s.Close()
+				_, s := x.table()
+				x.op(fmt.Sprintf("close %d", idx), "ok "+s)
+				x.o.Count("user-close")
+			}
+		}
+	}
+	x.readAll()
+	x.endCase()
 }
 
 // mixed traffic of k peers
@@ -1106,6 +1244,13 @@ func Run(o *hx.Out, g *hx.Rng, tier string) {
 		}
 		for _, c := range cfgs {
 			x.caseMixed(c, 2+g.Intn(4), steps/2)
+		}
+	}
+	for r := 0; r < rounds; r++ {
+		for i, c := range cfgs {
+			if tier == "thorough" || (i+r)%2 == 0 {
+				x.caseClose(c, 3+g.Intn(5), steps/2)
+			}
 		}
 	}
 	x.caseBacklog(cfgs[0])
